@@ -4,6 +4,7 @@ This module provides request dataclasses for representing
 Gemini and Titan protocol requests with a shared base class.
 """
 
+import re
 from dataclasses import dataclass, field
 from typing import TYPE_CHECKING
 
@@ -179,10 +180,14 @@ class TitanRequest(BaseRequest):
         if "size" not in params:
             raise ValueError("Titan URL must contain size parameter")
 
+        # int() alone also accepts '1_0', ' +5 ' and non-ASCII digits
+        size_text = params["size"]
+        if not re.fullmatch(r"-?[0-9]+", size_text):
+            raise ValueError(f"Invalid size parameter: {size_text}")
         try:
-            size = int(params["size"])
+            size = int(size_text)
         except ValueError as e:
-            raise ValueError(f"Invalid size parameter: {params['size']}") from e
+            raise ValueError(f"Invalid size parameter: {size_text}") from e
 
         if size < 0:
             raise ValueError(f"Size must be non-negative: {size}")
